@@ -8,7 +8,10 @@ import PV.Driver.Util
     fresh buffer of the newly requested capacity); `close` of a non-owner is a plain free.
     `abandon H`: the holder of H disappears without freeing it (what a killed process leaves): the documented
     clean-up is `own` + `close` through another handle.
-    `wz H LEN` writes LEN zero bytes (LEN up to 2^64 − 1, never materialised when it cannot fit). -/
+    `wz H LEN` writes LEN zero bytes (LEN up to 2^64 − 1, never materialised when it cannot fit).
+    `failsem A B`: the `p_shm_lock` (A = 1) / the `p_shm_unlock` (B = 1) of the NEXT op line fails (scripted failure of
+    sem_wait / sem_post; outside the statement: the spec column follows the model, i.e. the effect without the result).
+    `null`: every public call with a NULL buffer / name / storage. -/
 namespace PV.Driver.SB
 open PV.SB
 
@@ -18,6 +21,7 @@ structure St where
   q : Queue.Q := []                    -- spec queue
   hs : List (Nat × Nat) := []          -- open handles: id ↦ modulus
   owners : List Nat := []              -- handles that unlink the name when freed (the creator, and after `own`)
+  ls : LockScript := {}                -- scripted lock failures of the next op (`failsem`)
 
 def modulusOf (s : St) (h : Nat) : Option Nat := (s.hs.find? (·.1 = h)).map (·.2)
 
@@ -25,8 +29,17 @@ def fmtI (i : Int) : String := toString i
 
 def specSuffix (a b : String) : String := if a = b then a else a ++ " SPECDIFF " ++ b
 
-def step (s : St) (toks : List String) : IO (St × Bool) := do
+def step (s0 : St) (toks : List String) : IO (St × Bool) := do
+  let ls := s0.ls
+  let s : St := { s0 with ls := {} }
+  let failing := ls.lockFails || ls.unlockFails
   match toks with
+  | ["failsem", a, b] =>
+    IO.println "ok"; return ({ s with ls := { lockFails := a != "0", unlockFails := b != "0" } }, false)
+  | ["null"] =>
+    -- NULL buffer / name / storage: invalid argument (607, native code 0), −1 everywhere, no effect
+    let tail := if (modulusOf s 0).isSome then "-1 -1" else "-1 -1"
+    IO.println s!"null 607/0 -1 607/0 -1 -1 -1 {tail}"; return (s, false)
   | ["newoom", _size] =>
     -- opens of the existing buffer that fail for lack of memory (or succeed and are closed at once): nothing changes
     if s.seg.isNone then IO.println "bad-op"; return (s, false)
@@ -79,56 +92,60 @@ def step (s : St) (toks : List String) : IO (St × Bool) := do
     if (n.toNat?.getD 0) < 4294967296 then IO.println "bad-op"; return (s, false) else
     match h.toNat?.bind (modulusOf s), n.toNat?, s.seg with
     | some M, some n, some sh =>
-      match writeZeros M sh n with
+      match writeZerosL ls M sh n with
       | .fault => IO.println "fault"; return (s, true)
       | .ok sh' r =>
         let (q', sr) := Queue.writeZeros s.cap s.q n
+        let (q', sr) := if n ≠ 0 ∧ ls.lockFails then (s.q, (-1 : Int)) else if n ≠ 0 ∧ failing then (q', (-1 : Int)) else (q', sr)
         IO.println (specSuffix (fmtI r) (fmtI sr))
         return ({ s with seg := some sh', q := q' }, false)
     | _, _, _ => IO.println "bad-op"; return (s, false)
   | ["wz", h, n] =>
     match h.toNat?.bind (modulusOf s), n.toNat?, s.seg with
     | some M, some n, some sh =>
-      match writeZeros M sh n with
+      match writeZerosL ls M sh n with
       | .fault => IO.println "fault"; return (s, true)
       | .ok sh' r =>
         let (q', sr) := Queue.writeZeros s.cap s.q n
+        let (q', sr) := if n ≠ 0 ∧ ls.lockFails then (s.q, (-1 : Int)) else if n ≠ 0 ∧ failing then (q', (-1 : Int)) else (q', sr)
         IO.println (specSuffix (fmtI r) (fmtI sr))
         return ({ s with seg := some sh', q := q' }, false)
     | _, _, _ => IO.println "bad-op"; return (s, false)
   | ["w", h, hex] =>
     match h.toNat?.bind (modulusOf s), bytesOfHex hex, s.seg with
     | some M, some xs, some sh =>
-      match write M sh xs with
+      match writeL ls M sh xs with
       | .fault => IO.println "fault"; return (s, true)
       | .ok sh' r =>
         let (q', sr) := Queue.write s.cap s.q xs
+        let (q', sr) := if xs.length ≠ 0 ∧ ls.lockFails then (s.q, (-1 : Int)) else if xs.length ≠ 0 ∧ failing then (q', (-1 : Int)) else (q', sr)
         IO.println (specSuffix (fmtI r) (fmtI sr))
         return ({ s with seg := some sh', q := q' }, false)
     | _, _, _ => IO.println "bad-op"; return (s, false)
   | ["r", h, len] =>
     match h.toNat?.bind (modulusOf s), len.toNat?, s.seg with
     | some M, some len, some sh =>
-      match read M sh len with
+      match readL ls M sh len with
       | .fault => IO.println "fault"; return (s, true)
       | .ok sh' (o, r) =>
         let (q', so, sr) := Queue.read s.q len
+        let (q', so, sr) := if len ≠ 0 ∧ ls.lockFails then (s.q, ([] : List UInt8), (-1 : Int)) else if len ≠ 0 ∧ failing then (q', ([] : List UInt8), (-1 : Int)) else (q', so, sr)
         IO.println (specSuffix (fmtI r ++ " " ++ hexOfBytes o) (fmtI sr ++ " " ++ hexOfBytes so))
         return ({ s with seg := some sh', q := q' }, false)
     | _, _, _ => IO.println "bad-op"; return (s, false)
   | ["clr", h] =>
     match h.toNat?.bind (modulusOf s), s.seg with
-    | some M, some sh => IO.println "ok"; return ({ s with seg := some (clear M sh), q := [] }, false)
+    | some M, some sh => IO.println "ok"; return ({ s with seg := some (clearL ls M sh), q := if ls.lockFails then s.q else [] }, false)
     | _, _ => IO.println "bad-op"; return (s, false)
   | ["used", h] =>
     match h.toNat?.bind (modulusOf s), s.seg with
     | some M, some sh =>
-      IO.println (specSuffix (toString (usedSpace M sh)) (toString (Queue.used s.q))); return (s, false)
+      IO.println (specSuffix (toString (usedSpaceL ls M sh)) (if failing then "-1" else toString (Queue.used s.q))); return (s, false)
     | _, _ => IO.println "bad-op"; return (s, false)
   | ["free", h] =>
     match h.toNat?.bind (modulusOf s), s.seg with
     | some M, some sh =>
-      IO.println (specSuffix (toString (freeSpace M sh)) (toString (Queue.free s.cap s.q))); return (s, false)
+      IO.println (specSuffix (toString (freeSpaceL ls M sh)) (if failing then "-1" else toString (Queue.free s.cap s.q))); return (s, false)
     | _, _ => IO.println "bad-op"; return (s, false)
   | ["pos"] =>
     match s.seg with
